@@ -214,6 +214,19 @@ KillCascades == [][\A r \in Trackable, l \in Locals :
 OutDisjoint == /\ {<<x[1], x[2], x[3]>> : x \in out.resolved} \cap out.cancelled = {}
                /\ ({<<x[1], x[2], x[3]>> : x \in out.resolved} \cup out.cancelled) \cap pending = {}
 
+(***************************** triage labels ******************************)
+\* Situation labels of an action in the current state.  They take no part in any verdict: the
+\* harness attaches them to a failing case ("tags" of the failing step, "after" = labels of the
+\* steps before it) so that known_findings.json can match exactly one defect class.
+Tags(n, kind, f, r, loc) ==
+    (IF n \in {"Announce", "Props"} /\ obj[f].local # 0 /\ obj[f].region \notin tracked
+     THEN {"target-regionless"} ELSE {})
+    \cup (IF n = "Announce" /\ kind = "cachedHit" /\ obj[f].local # 0
+          THEN {"cachedHit-known-fullid"} ELSE {})
+    \cup (IF n = "Kill" /\ AtSlot(obj, r, loc) = {} /\ NamesAsParent(obj, r, loc) \cap Avatars # {}
+          THEN {"kill-untracked-parent-of-avatar"} ELSE {})
+    \cup (IF out'.cancelled # {} THEN {"cancels-requests"} ELSE {})
+
 (********************* observation (binding to the code) *******************)
 ParentName(o, t, f) == IF ParentLink(o, t, f) = {} THEN "-" ELSE CHOOSE g \in ParentLink(o, t, f) : TRUE
 \* what the public lookups of a correct implementation show in world (o, t):
